@@ -8,11 +8,13 @@ import (
 	"encoding/json"
 	"flag"
 	"fmt"
+	"io"
 	"math/big"
 	"os"
 	"path/filepath"
 	"strings"
 
+	"github.com/sirupsen/logrus"
 	"verifharness/cv"
 )
 
@@ -319,7 +321,7 @@ func cloneEntry(e *Entry) *Entry {
 	return &c
 }
 
-func (g *gen) eventVariants(r *cv.Rand, e *Entry, malformed bool) {
+func (g *gen) eventVariants(r *cv.Rand, e *Entry, malformed bool, full bool) {
 	vals := make([]*V, len(e.Inputs))
 	nIdx := 0
 	for i, p := range e.Inputs {
@@ -365,7 +367,12 @@ func (g *gen) eventVariants(r *cv.Rand, e *Entry, malformed bool) {
 		fl2 := append([]byte{}, topics[0]...)
 		fl2[31] ^= 1
 		muts["last-bit-flipped"] = fl2
-		for _, name := range []string{"other-event", "zero", "31-bytes", "33-bytes", "empty", "bit-flipped", "last-bit-flipped"} {
+		names := []string{"other-event", "zero", "31-bytes", "33-bytes", "empty", "bit-flipped", "last-bit-flipped"}
+		if !full { // two of the seven, rotating
+			k := r.Intn(7)
+			names = []string{names[k], names[(k+3)%7]}
+		}
+		for _, name := range names {
 			tt := append([]hexb{hexb(muts[name])}, topics[1:]...)
 			g.add(&Spec{Kind: "event", Class: "foreign-topic0:" + name, Entry: e, Topics: tt, Data: data, Expect: "refuse"})
 		}
@@ -388,7 +395,11 @@ func (g *gen) eventVariants(r *cv.Rand, e *Entry, malformed bool) {
 		first = 1
 	}
 	for k := first; k < need; k++ {
-		for _, w := range []int{0, 31, 33} {
+		ws := []int{0, 31, 33}
+		if !full {
+			ws = ws[r.Intn(3):][:1]
+		}
+		for _, w := range ws {
 			tt := append([]hexb{}, topics...)
 			if w < 32 {
 				tt[k] = topics[k][:w]
@@ -450,12 +461,12 @@ func (g *gen) events(r *cv.Rand, nEntries int, thorough bool) {
 		{K: kFunction}, {K: kBytesN, M: 1}, {K: kBytesN, M: 32}, {K: kBytes}, {K: kString}, {K: kFixed, M: 128, N: 18}, {K: kUfixed, M: 8, N: 1},
 		{K: kFixed, M: 128, N: 18, Alias: true}, {K: kDynArr, Elem: &T{K: kUint, M: 8}}, {K: kFixedArr, Len: 2, Elem: &T{K: kAddress}},
 		{K: kTuple, Kids: []*T{{K: kUint, M: 8, Name: "x"}, {K: kBool, Name: "y"}}}}
-	for _, k := range kinds {
+	for ki, k := range kinds {
 		for _, anon := range []bool{false, true} {
 			c := *k
 			c.Name = "ix"
 			e := &Entry{Type: "event", Name: "K", Anonymous: anon, Inputs: []Param{{T: &T{K: kString, Name: "s"}}, {T: &c, Indexed: true}, {T: &T{K: kUint, M: 16, Name: "n"}}}}
-			g.eventVariants(r, e, true)
+			g.eventVariants(r, e, true, thorough || ki < 2)
 		}
 	}
 	// every assignment of indexed flags up to the topic limit, 0..8 parameters
@@ -475,7 +486,7 @@ func (g *gen) events(r *cv.Rand, nEntries int, thorough bool) {
 				for i := range fl {
 					e.Inputs[i].Indexed = fl[i]
 				}
-				g.eventVariants(r, e, si%7 == 0)
+				g.eventVariants(r, e, si%7 == 0, thorough)
 			}
 		}
 	}
@@ -494,7 +505,7 @@ func (g *gen) events(r *cv.Rand, nEntries int, thorough bool) {
 				c++
 			}
 		}
-		g.eventVariants(r, e, i%2 == 0)
+		g.eventVariants(r, e, i%2 == 0, thorough)
 	}
 	// beyond the topic limit (no expectation: outside the property's quantifier, model must agree)
 	for i := 0; i < 4; i++ {
@@ -502,7 +513,7 @@ func (g *gen) events(r *cv.Rand, nEntries int, thorough bool) {
 		for j := range e.Inputs {
 			e.Inputs[j].Indexed = j < 5
 		}
-		g.eventVariants(r, e, false)
+		g.eventVariants(r, e, false, false)
 	}
 	// an entry whose type does not validate
 	g.add(&Spec{Kind: "event", Class: "invalid-type", Entry: &Entry{Type: "event", Name: "f", Inputs: []Param{{T: &T{K: kInvalid, Bad: "wrong", Name: "z"}}}}, Topics: []hexb{}, Expect: "refuse"})
@@ -611,6 +622,7 @@ func main() {
 		os.Exit(2)
 	}
 	os.MkdirAll(*out, 0o755)
+	logrus.SetOutput(io.Discard) // pkg/abi logs every signature it cannot build
 	st := cv.NewStats()
 	st.Rule = "distinct (kind, entry / ABI, input) descriptions; every case runs at least one entry-level function of pkg/abi beyond argument validation"
 	g := &gen{st: st, seen: map[string]bool{}, cur: filepath.Join(*out, "current_case.json")}
